@@ -24,6 +24,7 @@ pub struct Setup {
     pub liquidity: [(u128, u128); 3],
     pub vault_fees: [u128; 3],          // protocol fee share of the vaults of uwhale, uusdc, ubtc
     pub routes: [u8; 3],                // for uusdc, uatom, ubtc: 0 none, 1 good, 2 route over a missing pool (simulation fails)
+    pub cw20_btc: bool,                 // asset 3 ("ubtc") is a cw20 token with that symbol instead of a native denom
 }
 #[derive(Clone, Debug)]
 pub enum Ev {
@@ -44,7 +45,8 @@ const VAULT_ASSETS: [usize; 3] = [0, 1, 3];
 fn build(s: &Setup) -> W {
     let cfg = EpochCfg { grace_period: s.grace, ..Default::default() };
     let mut w = deploy_epoch_world(cfg).expect("deploy");
-    for d in A { w.add_native_decimals(d).expect("decimals"); }
+    if s.cw20_btc { w.make_cw20("ubtc", &["donor"]); }
+    for d in A { if !w.cw20s.contains_key(d) { w.add_native_decimals(d).expect("decimals"); } }
     let mut pairs = vec![];
     for (i, (a, b)) in PAIR_ASSETS.iter().enumerate() {
         let p = w.create_pair(A[*a], A[*b], s.pair_fees[i], 3_000_000_000_000_000, 0).expect("pair");
@@ -59,7 +61,7 @@ fn build(s: &Setup) -> W {
     }
     let bcode = w.app.store_code(borrower::contract());
     let borrower = w.app.instantiate_contract(bcode, Addr::unchecked(OWNER), &Empty {}, &[], "borrower", None).unwrap();
-    for d in A { w.app.send_tokens(Addr::unchecked("donor"), borrower.clone(), &[coin(1u128 << 100, d)]).unwrap(); }
+    for d in A { w.transfer("donor", borrower.as_str(), d, 1u128 << 99).unwrap(); }
     let hops: [Vec<(&str, &str)>; 3] = [vec![("uusdc", "uwhale")], vec![("uatom", "uwhale")], vec![("ubtc", "uusdc"), ("uusdc", "uwhale")]];
     for (i, asset) in [1usize, 2, 3].iter().enumerate() {
         match s.routes[i] {
@@ -93,7 +95,7 @@ fn apply(w: &mut W, t: u64, e: &Ev) -> Outcome<()> {
         }
         Ev::Fee { asset, amount } => {
             let c = w.w.collector.clone();
-            run_catch(|| w.w.app.send_tokens(Addr::unchecked("donor"), c, &[coin(*amount, A[*asset])]).map(|_| ()), classify)
+            run_catch(|| w.w.transfer("donor", c.as_str(), A[*asset], *amount).map(|_| ()), classify)
         }
         Ev::Config { admin, active, rate, dao } => {
             let msg = fc::ExecuteMsg::UpdateConfig { owner: None, pool_router: None, fee_distributor: None, pool_factory: None, vault_factory: None,
@@ -292,7 +294,8 @@ fn gen_setup(rng: &mut Rng) -> Setup {
     let pf = |rng: &mut Rng| *rng.pick(&[0u128, 1_000_000_000_000_000, 50_000_000_000_000_000, 300_000_000_000_000_000]);
     let liq = |rng: &mut Rng| { let x = *rng.pick(&[1_000_000u128, 50_000_000, 1_000_000_000_000, 1_000_000_000_000]); (x, x + rng.below128(x)) };
     Setup { grace: 1 + rng.below(3), pair_fees: [pf(rng), pf(rng), pf(rng)], liquidity: [liq(rng), liq(rng), liq(rng)],
-            vault_fees: [pf(rng), pf(rng), pf(rng)], routes: [*rng.pick(&[1u8, 1, 1, 1, 0, 2]), *rng.pick(&[1u8, 1, 0, 0, 2]), *rng.pick(&[1u8, 1, 1, 0, 2])] }
+            vault_fees: [pf(rng), pf(rng), pf(rng)], routes: [*rng.pick(&[1u8, 1, 1, 1, 0, 2]), *rng.pick(&[1u8, 1, 0, 0, 2]), *rng.pick(&[1u8, 1, 1, 0, 2])],
+            cw20_btc: rng.below(5) < 2 }
 }
 fn gen_rate(rng: &mut Rng) -> u128 { *rng.pick(&[0u128, 1, 10_000_000_000_000_000, 10_000_000_000_000_000, 333_333_333_333_333_333, DEC - 1, DEC, DEC + 5]) }
 
@@ -329,6 +332,7 @@ fn gen_history(out: &mut Out, rng: &mut Rng) {
     }
     out.count(&format!("history:grace_{}", setup.grace));
     out.count(&format!("history:routes_{}{}{}", setup.routes[0], setup.routes[1], setup.routes[2]));
+    out.count(if setup.cw20_btc { "history:ubtc_is_cw20" } else { "history:ubtc_is_native" });
     x.emit(out);
 }
 
@@ -336,7 +340,7 @@ fn corpus(out: &mut Out) {
     let t0 = GENESIS_DEFAULT;
     let d = DAY_NS;
     let setup = Setup { grace: 1, pair_fees: [50_000_000_000_000_000; 3], liquidity: [(1_000_000_000, 1_000_000_000), (1_000_000_000, 2_000_000_000), (1_000_000, 1_000_000)],
-                        vault_fees: [10_000_000_000_000_000; 3], routes: [1, 0, 1] };
+                        vault_fees: [10_000_000_000_000_000; 3], routes: [1, 0, 1], cw20_btc: false };
     let evs: Vec<(u64, Ev)> = vec![
         (t0, Ev::Config { admin: true, active: Some(true), rate: Some(10_000_000_000_000_000), dao: Some(true) }),
         (t0, Ev::Config { admin: false, active: Some(false), rate: None, dao: None }),
